@@ -1051,6 +1051,41 @@ def _helper_for(ast, fn, c, stack):
     return g
 
 
+def _local_closure(view, c):
+    """(name, closure node) when call c invokes a closure bound by an immutable `let NAME = |p, ..| body;` whose parameters are plain identifiers, whose body
+    has no `return` / `?` / `await`, and which captures nothing that is written between its definition and the call"""
+    if not (c.k == "call" and isinstance(c.get("func"), Node) and c["func"].k == "path" and "::" not in c["func"]["path"]):
+        return None
+    try:
+        b = binding_before(view, c["func"]["path"], c)
+    except Exception:
+        return None
+    if b is None or b[0] != "let" or b[-1] != () or b[1].get("init") is None or b[1]["pat"].k != "p_ident" or b[1]["pat"].get("mut"):
+        return None
+    cl = strip(b[1]["init"])
+    if not (isinstance(cl, Node) and cl.k == "closure") or len(cl["inputs"]) != len(c["args"]) or cl.get("async"):
+        return None
+    names = []
+    for p_ in cl["inputs"]:
+        q = p_
+        while q.k == "p_type":
+            q = q["pat"]
+        if q.k != "p_ident":
+            return None
+        names.append(q["name"])
+    for x in walk_no_nested_fn(cl["body"]):
+        if x.k in ("return", "try", "await"):
+            return None
+    seen = []
+    for nm, a in zip(names, c["args"]):
+        if {y["path"] for y in walk(a) if y.k == "path"} & set(seen):
+            return None
+        seen.append(nm)
+    if _reads_assigned(view, cl["body"], b[1].order, c.order):
+        return None
+    return c["func"]["path"], cl
+
+
 def _propagating_site(c):
     """the call's value is `?`-propagated, returned, or the tail of the function body"""
     p = c.parent
@@ -1081,6 +1116,14 @@ def _propagating_site(c):
     return False
 
 
+def _invalidate(fn):
+    """drop the per-function caches (bindings, assigned places) after the function's tree was edited"""
+    for f_ in (resolve_local, assigned_places):
+        for d in (f_.__defaults__ or ()):
+            if isinstance(d, dict):
+                d.pop(id(fn), None)
+
+
 def inline_helpers(ast, fn, depth=2, keep=()):
     node = _copy_tree(fn.node)
     view = Fn(node, fn.file, fn.container, fn.qual)
@@ -1088,12 +1131,35 @@ def inline_helpers(ast, fn, depth=2, keep=()):
     view.inlined = []
     for _ in range(depth):
         ast._annotate(view)
+        _invalidate(view)
         changed = False
         for c in list(walk_no_nested_fn(view.body)):
             if c.k not in ("call", "mcall"):
                 continue
             g = _helper_for(ast, fn, c, {fn.qual} | set(view.inlined) if False else {fn.qual})
-            if g is None or g.name in keep:
+            if g is None:
+                # a local closure bound by an immutable `let` and called by name: `let hits = |a, b| expr; .. hits(x, y)`
+                lc = _local_closure(view, c)
+                if lc is not None and lc[0] not in keep:
+                    name_, clos = lc
+                    pats = []
+                    for p_ in clos["inputs"]:
+                        q = p_
+                        while q.k == "p_type":
+                            q = q["pat"]
+                        pats.append(q)
+                    body = strip(clos["body"])
+                    stmts = [_mknode({"k": "let", "pat": _copy_tree(pt), "attrs": [], "init": a, "else": None, "sp": c.get("sp")}) for pt, a in zip(pats, c["args"])]
+                    if body.k == "block":
+                        stmts += _copy_tree(body["stmts"])
+                    else:
+                        stmts.append(_mknode({"k": "expr_stmt", "e": _copy_tree(body), "semi": False, "sp": c.get("sp")}))
+                    blk = _mknode({"k": "block", "stmts": stmts, "sp": c.get("sp"), "inlined_from": "closure " + name_})
+                    if _replace_child(c.parent, c, blk):
+                        view.inlined.append("closure " + name_)
+                        changed = True
+                continue
+            if g.name in keep:
                 continue
             if any(x.k == "try" for x in walk_no_nested_fn(g.body)) and not _propagating_site(c):
                 continue
@@ -1112,6 +1178,7 @@ def inline_helpers(ast, fn, depth=2, keep=()):
         if not changed:
             break
     ast._annotate(view)
+    _invalidate(view)
     return view
 
 
